@@ -1,7 +1,7 @@
 (* Entry point of the executable model: one case (a [val]) in, one
    observation (a [val]) out.  The same function is extracted to OCaml
    (vv_eval) and re-evaluated on samples inside Coq by vm_compute. *)
-From VV Require Import Base.Bits Base.Rt Base.Val Gen.GenConsts Gen.GenLayout Gen.GenFns Spec.ValidityDec Spec.BeSpec Model.Transport Model.BeServer.
+From VV Require Import Base.Bits Base.Rt Base.Val Gen.GenConsts Gen.GenLayout Gen.GenFns Spec.ValidityDec Spec.BeSpec Spec.FeSpec Model.Transport Model.BeServer Model.Frontend.
 Open Scope string_scope.
 Open Scope list_scope.
 Open Scope N_scope.
@@ -184,6 +184,35 @@ Definition run_iovs_spec (args : list val) : val :=
   | _ => verror "args"
   end.
 
+(* ---- family "fe": frontend operations against a scripted raw peer ----
+   args: [VN maxq; VL steps]; step = VL [VS op; VL nums; VH bytes; VL fds; VL regions; VL script]
+   obs : VL [ VL [result; VL sent] ... ] *)
+Definition parse_step (v : val) : option (string * list N * list N * list N * list (list N) * stream) :=
+  match v with
+  | VL [VS name; nums; VH bytes; fds; VL regions; VL script] =>
+      match val_NL nums, val_NL fds, all_some (map val_NL regions), all_some (map parse_seg script) with
+      | Some a, Some f, Some r, Some q => Some (name, a, hex_bytes bytes, f, r, q)
+      | _, _, _, _ => None
+      end
+  | _ => None
+  end.
+Fixpoint fe_steps (s : fe_state) (steps : list val) : list val :=
+  match steps with
+  | [] => []
+  | st :: rest =>
+      match parse_step st with
+      | Some (name, a, bytes, fds, regions, q) =>
+          let out := fe_op s name a bytes fds regions q in
+          VL [f_result out; VL (map tx_val (f_sent out))] :: fe_steps (f_state out) rest
+      | None => [verror "step"]
+      end
+  end.
+Definition run_fe (args : list val) : val :=
+  match args with
+  | [VN maxq; VL steps] => VL (fe_steps (fe_init maxq) steps)
+  | _ => verror "args"
+  end.
+
 Definition run (c : val) : val :=
   match c with
   | VL (VS fam :: args) =>
@@ -192,6 +221,8 @@ Definition run (c : val) : val :=
       else if String.eqb fam "be" then run_be args
       else if String.eqb fam "be-spec" then be_spec args
       else if String.eqb fam "seg" then run_seg args
+      else if String.eqb fam "fe" then run_fe args
+      else if String.eqb fam "fe-spec" then fe_spec args
       else if String.eqb fam "iovs" then run_iovs args
       else if String.eqb fam "iovs-spec" then run_iovs_spec args
       else if String.eqb fam "seg-spec" then run_seg_spec args
